@@ -4,6 +4,9 @@ from world import amounts, enc_f64, f64_from_bits, enc_dec
 ID = "C17"
 LEAN_MODULES = ["QtyModel.Props.C17", "QtyModel.Props.C17F64"]
 HARNESS_GROUPS = ('g_ser',)
+# kinds of difference in the macro-level correspondence that are failing inputs here: the serde attributes of the
+# generated struct / enum, fields and variants (how a value is serialised is decided there, whatever the format)
+MACRO_PARTS = ("serde",)
 RULE = ("every unit of every catalogue and synthetic quantity type x finite amounts incl. adversarial ones (17 significant "
         "digits, full mantissas, 18 fractional digits, extreme exponents); JSON text, serde value tree, deserialisation of "
         "both, amount text re-read with an exactly rounding parser; non-trivial = amount neither zero nor one")
